@@ -1207,14 +1207,21 @@ R('presorted-setops', 2,
    lambda e, w: e.intersection(w.s[0], w.s[1], presorted=True),
    lambda e, w: e.diff(w.s[0], w.s[1], presorted=True)[0],
    lambda e, w: e.diff(w.s[0], w.s[1], presorted=True)[1],
-   lambda e, w: e.complement(w.s[0], w.s[1], presorted=True, strict=True)],
+   lambda e, w: e.complement(w.s[0], w.s[1], presorted=True, strict=True),
+   lambda e, w: e.recordcomplement(w.s[0], w.s[1], presorted=True),
+   lambda e, w: e.recorddiff(w.s[0], w.s[1], presorted=True)[1]],
   'transform.setops', stream=FIL0, rect=True, profile='sorted')
 R('presorted-joins', 2,
   [lambda e, w: e.join(w.s[0], w.s[1], key='a', presorted=True),
    lambda e, w: e.leftjoin(w.s[0], w.s[1], key='a', presorted=True),
    lambda e, w: e.antijoin(w.s[0], w.s[1], key='a', presorted=True),
    lambda e, w: e.lookupjoin(w.s[0], w.s[1], key='a', presorted=True),
-   lambda e, w: e.mergesort(w.s[0], w.s[1], key='a', presorted=True)],
+   lambda e, w: e.mergesort(w.s[0], w.s[1], key='a', presorted=True),
+   lambda e, w: e.rightjoin(w.s[0], w.s[1], key='a', presorted=True),
+   lambda e, w: e.outerjoin(w.s[0], w.s[1], key='a', presorted=True,
+                            lprefix='l_', rprefix='r_'),
+   lambda e, w: e.join(w.s[0], w.s[1], lkey='a', rkey='a', presorted=True),
+   lambda e, w: e.mergesort(w.s[0], w.s[1], presorted=True)],
   'transform.joins', stream=FIL0, profile='sorted')
 R('presorted-groups', 1,
   [lambda e, w: e.duplicates(w.s[0], 'a', presorted=True),
@@ -1230,9 +1237,25 @@ R('presorted-groups', 1,
    lambda e, w: e.groupselectlast(w.s[0], 'a', presorted=True),
    lambda e, w: e.mergeduplicates(w.s[0], 'a', presorted=True),
    lambda e, w: e.rowgroupmap(w.s[0], 'a', f_groupmapper, header=['k', 'n'],
-                              presorted=True)],
+                              presorted=True),
+   lambda e, w: e.distinct(w.s[0], 'a', count='n', presorted=True),
+   lambda e, w: e.distinct(w.s[0], presorted=True),
+   lambda e, w: e.distinct(w.s[0], count='n', presorted=True),
+   lambda e, w: e.duplicates(w.s[0], presorted=True),
+   lambda e, w: e.unique(w.s[0], presorted=True),
+   lambda e, w: e.conflicts(w.s[0], 'a', presorted=True, missing=0,
+                            include='c'),
+   lambda e, w: e.aggregate(w.s[0], 'a', presorted=True),
+   lambda e, w: e.aggregate(w.s[0], ('a', 'd'), list, 'c', presorted=True),
+   lambda e, w: e.mergeduplicates(w.s[0], ('a', 'd'), presorted=True)],
   'transform.reductions', stream=FIL0, profile='sorted')
-for _n in ('presorted-setops', 'presorted-joins', 'presorted-groups'):
+# (presorted accepted, but the whole input is read before the first row)
+R('presorted-other', 1,
+  [lambda e, w: e.pivot(w.s[0], 'a', 'd', 'c', sum, presorted=True),
+   lambda e, w: e.groupselectmin(w.s[0], 'a', 'c', presorted=True),
+   lambda e, w: e.groupselectmax(w.s[0], 'a', 'c', presorted=True)],
+  'transform.reductions', profile='sorted', temp=True)
+for _n in ('presorted-setops', 'presorted-joins', 'presorted-groups',
+           'presorted-other'):
     RECIPES[_n].stackable = False
-    RECIPES[_n].c01 = False
 NAMES = sorted(RECIPES)
